@@ -76,6 +76,8 @@ class Facts:
         self.adts = {}
         self.impls = []
         self.statics = {}
+        self.consts = {}        # named constants: path -> {body: MIR of the initialiser, promoted}
+        self._const_val = {}
         self.by_nice = {}
         self._pure = None
         for c in CRATES:
@@ -94,6 +96,8 @@ class Facts:
                 self.impls.append(i)
             for s in raw["statics"]:
                 self.statics[s["path"]] = s
+            for k in raw.get("consts", []):
+                self.consts[k["path"]] = k
         self.inlined_into = {}
         if not os.environ.get("PV_NO_INLINE"):
             from .inline import inline_unknown_helpers
@@ -138,6 +142,51 @@ class Facts:
             l = self.by_nice.get(f.nice, [])
             if f in l:
                 l.remove(f)
+
+    def const_value(self, path):
+        """symbolic value of a named constant, read off the MIR of its initialiser (None when it is not a constant,
+        an aggregate of constants or a call of a constructor on constants)"""
+        if path in self._const_val:
+            return self._const_val[path]
+        self._const_val[path] = None
+        raw = self.consts.get(path)
+        if raw is None:
+            return None
+        from .sym import Analysis
+
+        class _PF:
+            pass
+        pf = _PF()
+        pf.path = path
+        pf.body = raw["body"]
+        pf.blocks = raw["body"]["blocks"]
+        pf.locals = raw["body"]["locals"]
+        pf.argc = raw["body"]["argc"]
+        pf.promoted = raw.get("promoted", [])
+        pf._cfg = None
+        pf.local_name = lambda i: "_%d" % i
+        try:
+            a = Analysis(pf, self)
+        except Exception:
+            return None
+        vals = []
+        for b, info in a.term.items():
+            if info["kind"] == "return":
+                st = a.state_before_term(b)
+                vals.append(a.read(st, ("local", 0)))
+        if len(vals) == 1:
+            from .sym import strip_sites
+            v = vals[0]
+            ok = [True]
+
+            def chk(x):
+                if x[0] in ("phi", "init", "clob", "param", "local"):
+                    ok[0] = False
+            from .sym import walk
+            walk(v, chk)
+            if ok[0]:
+                self._const_val[path] = strip_sites(v) if v[0] != "const" else v
+        return self._const_val[path]
 
     def fn(self, path):
         """Exact def-path lookup; fail closed."""
